@@ -8,3 +8,5 @@ From MV Require Import Codec.ObjDigits.
 From MV Require Gen.ObjPrecision.
 Definition obj_format_current : bool := Eval vm_compute in obj_format_ok Gen.ObjPrecision.obj_precision Gen.ObjPrecision.obj_scientific.
 Print obj_format_current.
+Definition import_honours_backside_current : bool := Eval vm_compute in Gen.Ladder.import_honours_backside_without_transform.
+Print import_honours_backside_current.
